@@ -178,7 +178,7 @@ func cmdC13(c *ctx) {
 				c.line("cases.txt", line)
 				// minimise semantic disagreements on the spot (once per pass and knob)
 				key := "shrunk:" + p.name + ":" + knob
-				if c.stats[key] == 0 && c.stats["shrunk"] < 6 {
+				if c.stats[key] == 0 && c.stats["shrunk"] < 40 && (knob == "flatRet" || c.stats["shrunk"] < 4) {
 					if c13drv == nil {
 						c13drv = startDrv("c13")
 					}
